@@ -35,7 +35,8 @@ def load_findings():
 class Check:
     """Context of one check run."""
 
-    def __init__(self, pid: str, tier: str, seed: int, level: str):
+    def __init__(self, pid: str, tier: str, seed: int, level: str, evidence: bool = True):
+        self.write_evidence = evidence       # (a replay of one stored input does not overwrite the evidence of the last full run)
         self.pid = pid
         self.tier = tier
         self.seed = seed
@@ -101,9 +102,10 @@ class Check:
         ev = {"property_id": self.pid, "tier": self.tier, "seed": self.seed, "level": self.level,
               "coverage": cov, "assumptions": self.assumptions, "wall_s": round(wall, 2),
               "violations": len(self.violations)}
-        os.makedirs(EVID, exist_ok=True)
-        with open(os.path.join(EVID, self.pid + ".json"), "w") as f:
-            json.dump(ev, f, indent=1, default=str)
+        if self.write_evidence:
+            os.makedirs(EVID, exist_ok=True)
+            with open(os.path.join(EVID, self.pid + ".json"), "w") as f:
+                json.dump(ev, f, indent=1, default=str)
         for d in self.drift:
             print("DRIFT " + d)
         for (pid, sig), text in sorted(self.open.items()):
